@@ -176,6 +176,7 @@ type sess struct {
 	transient bool // hello_goodbye client
 	sid       wamp.ID
 	welcome   bool
+	welcomeAt time.Duration
 	gone      string // GOODBYE reason / ABORT reason / "closed"
 	expGone   string // why the harness expects it to go
 	leaving   bool
@@ -216,25 +217,26 @@ type readerCmd struct {
 }
 
 type runner struct {
-	h       *History
-	strict  bool // C07 oracles enforced
-	trace   bool
-	mu      sync.Mutex
-	t0      time.Time
-	lg      *log.Logger
-	rtr     router.Router
-	hold    *holds
-	sess    []*sess
-	bySid   map[wamp.ID]*sess
-	calls   map[string]*callRec
-	events  map[string]map[int]*expect
-	exps    []*expect
-	subs    map[string]map[string]map[int]wamp.ID // realm -> topic -> session -> subscription
-	regs    map[string]map[string]*sess           // realm -> proc -> callee
-	regIDs  map[int]map[string]wamp.ID            // session -> proc -> registration
-	everReg map[string][]*sess                    // realm|proc -> sessions that ever asked to register it
-	realms  map[string]bool                       // live realms
-	relAt   []chan struct{}                       // authz "close" holds
+	h        *History
+	strict   bool // C07 oracles enforced
+	trace    bool
+	mu       sync.Mutex
+	t0       time.Time
+	lg       *log.Logger
+	rtr      router.Router
+	hold     *holds
+	sess     []*sess
+	bySid    map[wamp.ID]*sess
+	calls    map[string]*callRec
+	events   map[string]map[int]*expect
+	exps     []*expect
+	subs     map[string]map[string]map[int]wamp.ID // realm -> topic -> session -> subscription
+	regs     map[string]map[string]*sess           // realm -> proc -> callee
+	regIDs   map[int]map[string]wamp.ID            // session -> proc -> registration
+	everReg  map[string][]*sess                    // realm|proc -> sessions that ever asked to register it
+	realms   map[string]bool                       // live realms
+	relAt    []chan struct{}                       // authz "close" holds
+	relAfter []chan struct{}                       // auth gates, released when the close has returned
 
 	fails      []Failure
 	abort      bool
@@ -412,13 +414,19 @@ func helloDetails() wamp.Dict {
 }
 
 func (r *runner) realmConfig(uri string) *router.RealmConfig {
-	return &router.RealmConfig{URI: wamp.URI(uri), AnonymousAuth: true, AllowDisclose: true, EnableMetaKill: true,
+	return &router.RealmConfig{RequireLocalAuth: r.h.LocalAuth, URI: wamp.URI(uri), AnonymousAuth: true, AllowDisclose: true, EnableMetaKill: true,
 		Authorizer: r.hold, RequireLocalAuthz: true, PublishFilterFactory: r.hold.filterFactory}
 }
 
 // newSession creates the peers, starts drainer and sender, sends HELLO and
 // calls Attach from its own goroutine.  Caller holds no lock.
 func (r *runner) newSession(spec SessionSpec, transient bool, gate chan struct{}) *sess {
+	return r.newSessionAuth(spec, transient, gate, false)
+}
+
+// newSessionAuth: authGate parks the attach in IsLocal() until the history's
+// close has returned.
+func (r *runner) newSessionAuth(spec SessionSpec, transient bool, gate chan struct{}, authGate bool) *sess {
 	if spec.Q <= 0 {
 		spec.Q = 64
 	}
@@ -435,6 +443,12 @@ func (r *runner) newSession(spec SessionSpec, transient bool, gate chan struct{}
 	} else {
 		c, p := transport.LinkedPeersQSize(spec.Q)
 		s.cli, s.rp = c, newObsPeer(p, spec.Wrap || transient)
+	}
+	if authGate {
+		s.rp.authGate, s.rp.authRelease = true, make(chan struct{})
+		r.mu.Lock()
+		r.relAfter = append(r.relAfter, s.rp.authRelease)
+		r.mu.Unlock()
 	}
 	r.mu.Lock()
 	r.sess = append(r.sess, s)
@@ -664,7 +678,7 @@ func (s *sess) handle(m wamp.Message) {
 	}
 	switch m := m.(type) {
 	case *wamp.Welcome:
-		s.sid, s.welcome = m.ID, true
+		s.sid, s.welcome, s.welcomeAt = m.ID, true, now
 		r.bySid[m.ID] = s
 		if e := s.exps[0]; e != nil {
 			e.got, e.gotAt, e.gotAs = true, now, rec.Type
